@@ -46,4 +46,5 @@ func checkC17(c *Ctx) {
 	c17R5(c)
 	c17R6(c)
 	c17R7(c)
+	c17R8(c)
 }
